@@ -11,6 +11,7 @@ namespace GM.Proof.CMFrag
 open GM GM.Text GM.Blocks GM.Spec
 
 theorem runT_doc5 (items : List (Nat × Raw5)) (trail : Nat) (hgood : ∀ it ∈ items, Good5 it.2)
+    (hnoic : ∀ it ∈ items, isIcB it.2 = false)
     (hno : ∀ it ∈ items.map conv5, ∀ l ∈ it.2, ∀ c ∈ l, c ≠ 10) :
     ∃ s' bs, runT pts (rawDoc (items.map conv5) trail) = .ok s' ∧ bs.length = items.length ∧
       s'.nodes = addKids { kind := .document } 0 items.length ::
@@ -25,7 +26,7 @@ theorem runT_doc5 (items : List (Nat × Raw5)) (trail : Nat) (hgood : ∀ it ∈
     omega
   obtain ⟨s', bs, h1, h2, h3, h4⟩ :=
     blocksLoop_doc5 (src := rawDoc (items.map conv5) trail) atxOpens items.length items rfl trail 0 0
-      (linesFuel (rawDoc (items.map conv5) trail)) [] { kind := .document } [] ({ } : Ctx) hd hgood hf rfl
+      (linesFuel (rawDoc (items.map conv5) trail)) [] { kind := .document } [] ({ } : Ctx) hd hgood hnoic hf rfl
   refine ⟨s', bs, ?_, h2, by simpa using h3, h4⟩
   unfold runT parseBlocksT
   simp only [bind_apply, modPc_run, source_run, initSt, reader_new, rdr_source]
@@ -68,11 +69,13 @@ def Good5' : Raw5 → Prop
   | .old b => Good4' b
   | .fence fc _ info ls => (fc = 96 ∨ fc = 126) ∧ (∀ c ∈ info, GM.Spec.CM.isAlnumC c = true) ∧
       ∀ l ∈ ls, CodeLine fc l ∧ ∀ c ∈ l, c ≠ 10
+  | .icode ls => ls ≠ [] ∧ ∀ l ∈ ls, IcLine l
 
 theorem good5_of (b : Raw5) (h : Good5' b) : Good5 b := by
   cases b with
   | old b => exact good4_of b h
   | fence fc n info ls => exact ⟨h.1, h.2.1, fun l hl => (h.2.2 l hl).1⟩
+  | icode ls => exact h
 
 theorem alnum_not_nl : ∀ c : UInt8, GM.Spec.CM.isAlnumC c = true → c ≠ 10 := GM.forall_uint8 _ (by decide +kernel)
 
@@ -94,11 +97,35 @@ theorem lines5_no_nl (b : Raw5) (h : Good5' b) : ∀ l ∈ lines5 b, ∀ c ∈ l
       subst hl
       simp only [List.mem_replicate] at hc
       rw [hc.2]; exact hfc10
+  | icode ls =>
+    intro l hl c hc
+    simp only [lines5, icLines, List.mem_map] at hl
+    obtain ⟨l', hl', rfl⟩ := hl
+    simp only [List.mem_append] at hc
+    rcases hc with hc | hc
+    · simp [ind4] at hc; rw [hc]; decide
+    · exact (h.2 l' hl').noNl c hc
 
 theorem lines5_ne (b : Raw5) (h : Good5 b) : lines5 b ≠ [] := by
   cases b with
   | old b => exact lines4_ne b h
   | fence fc n info ls => simp [lines5]
+  | icode ls => simpa [lines5, icLines] using h.1
+
+theorem segValues_icsegs {src : Bytes} : ∀ (ls : List Bytes) (P : Nat), ParaAt src P (icLines ls) →
+    GM.Convert.segValues src (icsegs P ls) = .ok (ls.map (· ++ [10]))
+  | [], _, _ => rfl
+  | l :: rest, P, h => by
+    have e : P + (ind4 ++ l).length + 1 = P + 4 + l.length + 1 := by simp [ind4]; omega
+    have h1 : Ln src P (P + 4 + l.length + 1) ((ind4 ++ l) ++ [10]) := by have := h.1; rw [e] at this; exact this
+    have ih := segValues_icsegs rest (P + 4 + l.length + 1) (by have := h.2; rw [e] at this; exact this)
+    have hsub : sub src (P + 4) (P + 4 + l.length + 1) = l ++ [10] := by
+      have := sub_drop_prefix src P (P + 4 + l.length + 1) ind4 (l ++ [10]) (by rw [h1.sub]; simp)
+        (by simp [ind4]; omega)
+      simpa [ind4] using this
+    have hval : (csg (P + 4) (P + 4 + l.length + 1)).value src = .ok (l ++ [10]) :=
+      seg_value_nat src (P + 4) (P + 4 + l.length + 1) true (l ++ [10]) hsub (by omega) h1.le (fun _ => by simp)
+    simp only [icsegs, GM.Convert.segValues, hval, ih, bind, Except.bind, pure, Except.pure, List.map_cons]
 
 /-- `docTree` on the closed node of one block -/
 theorem docTree_block5 {src : Bytes} (env : GM.Inl.Env) (henv : env.escapedSpace = false) (b : Raw5) (p : Nat)
@@ -137,6 +164,13 @@ theorem docTree_block5 {src : Bytes} (env : GM.Inl.Env) (henv : env.escapedSpace
         GM.Convert.inlineTrees, GM.Convert.liftErr, GM.Convert.blockKind, hie, Bool.false_eq_true, if_false, e1, hsv,
         hval, bind, Except.bind, pure, Except.pure, rawNode5]
       simp [hit0]
+  | icode ls =>
+    have hsv := segValues_icsegs ls p h
+    simp only [node5, codeN, GM.Convert.docTree, GM.Convert.docTrees, GM.Convert.inlinePhase, GM.Convert.isRawKind,
+      GM.Convert.inlineTrees, GM.Convert.liftErr, GM.Convert.blockKind, hsv, bind, Except.bind, pure, Except.pure,
+      rawNode5]
+    have hit0 : GM.Convert.inlineTrees src [] = .ok [] := rfl
+    simp [hit0]
 
 theorem mkNodes5_children : ∀ (cl : List (Nat × List Bytes)) (blks : List Raw5) (bs : List Bool),
     ∀ n ∈ mkNodes5 cl blks bs, n.children = []
@@ -149,6 +183,7 @@ theorem mkNodes5_children : ∀ (cl : List (Nat × List Bytes)) (blks : List Raw
     · cases b with
       | old b => cases b <;> rfl
       | fence fc n info ls => rfl
+      | icode ls => rfl
     · exact mkNodes5_children cl blks bs n h
 
 theorem mkNodes5_length : ∀ (cl : List (Nat × List Bytes)) (blks : List Raw5) (bs : List Bool),
@@ -159,6 +194,85 @@ theorem mkNodes5_length : ∀ (cl : List (Nat × List Bytes)) (blks : List Raw5)
   | (p, ls) :: cl, b :: blks, bk :: bs, h1, h2 => by
     simp only [mkNodes5, List.length_cons]
     rw [mkNodes5_length cl blks bs (by simpa using h1) (by simpa using h2)]
+
+theorem mkNodes5L_length (NL : Nat → Raw5 → Bool → Blocks.Node) :
+    ∀ (cl : List (Nat × List Bytes)) (blks : List Raw5) (bs : List Bool),
+    blks.length = cl.length → bs.length = cl.length → (mkNodes5L NL cl blks bs).length = cl.length
+  | [], _, _, _, _ => by simp [mkNodes5L]
+  | _ :: _, [], _, h, _ => by simp at h
+  | _ :: _, _ :: _, [], _, h => by simp at h
+  | [(p, ls)], [b], [bk], _, _ => by simp [mkNodes5L]
+  | [(p, ls)], b :: b2 :: blks, _ :: _, h, _ => by simp at h
+  | [(p, ls)], [b], bk :: k2 :: bs, _, h => by simp at h
+  | (p, ls) :: x :: cl, [b], _ :: _, h, _ => by simp at h
+  | (p, ls) :: x :: cl, b :: b2 :: blks, [bk], _, h => by simp at h
+  | (p, ls) :: x :: cl, b :: b2 :: blks, bk :: k2 :: bs, h1, h2 => by
+    rw [mkNodes5L_cons, List.length_cons,
+      mkNodes5L_length NL (x :: cl) (b2 :: blks) (k2 :: bs) (by simpa using h1) (by simpa using h2)]
+    simp
+
+theorem node5_children (p : Nat) (b : Raw5) (bk : Bool) : (node5 p b bk).children = [] := by
+  cases b with
+  | old b => cases b <;> rfl
+  | fence fc n info ls => rfl
+  | icode ls => rfl
+
+theorem node5E_children (p : Nat) (b : Raw5) (bk : Bool) : (node5E p b bk).children = [] := by
+  cases b with
+  | old b => cases b <;> rfl
+  | fence fc n info ls => rfl
+  | icode ls => rfl
+
+theorem mkNodes5L_children (NL : Nat → Raw5 → Bool → Blocks.Node) (hNL : ∀ p b bk, (NL p b bk).children = []) :
+    ∀ (cl : List (Nat × List Bytes)) (blks : List Raw5) (bs : List Bool),
+    ∀ n ∈ mkNodes5L NL cl blks bs, n.children = []
+  | [], _, _, n, h => by simp [mkNodes5L] at h
+  | _ :: _, [], _, n, h => by simp [mkNodes5L] at h
+  | _ :: _, _ :: _, [], n, h => by simp [mkNodes5L] at h
+  | [(p, ls)], [b], [bk], n, h => by
+    simp only [mkNodes5L, List.mem_singleton] at h
+    subst h; exact hNL p b bk
+  | [(p, ls)], b :: b2 :: blks, bk :: bs, n, h => by
+    simp only [mkNodes5L, List.mem_cons, List.not_mem_nil, or_false] at h
+    subst h; exact node5_children p b bk
+  | [(p, ls)], [b], bk :: k2 :: bs, n, h => by
+    simp only [mkNodes5L, List.mem_cons, List.not_mem_nil, or_false] at h
+    subst h; exact node5_children p b bk
+  | (p, ls) :: x :: cl, b :: blks, bk :: bs, n, h => by
+    have e : mkNodes5L NL ((p, ls) :: x :: cl) (b :: blks) (bk :: bs) =
+        node5 p b bk :: mkNodes5L NL (x :: cl) blks bs := by
+      cases blks with
+      | nil => simp [mkNodes5L]
+      | cons b2 blks' =>
+        cases bs with
+        | nil => simp [mkNodes5L]
+        | cons k2 bs' => rw [mkNodes5L_cons]
+    rw [e, List.mem_cons] at h
+    rcases h with rfl | h
+    · exact node5_children p b bk
+    · exact mkNodes5L_children NL hNL (x :: cl) blks bs n h
+
+/-- only the last block's node depends on `NL` -/
+theorem mkNodes5L_congr (NL NL' : Nat → Raw5 → Bool → Blocks.Node) :
+    ∀ (cl : List (Nat × List Bytes)) (blks : List Raw5) (bs : List Bool),
+    (∀ b, blks.getLast? = some b → ∀ p bk, NL p b bk = NL' p b bk) →
+    mkNodes5L NL cl blks bs = mkNodes5L NL' cl blks bs
+  | [], _, _, _ => by simp [mkNodes5L]
+  | _ :: _, [], _, _ => by simp [mkNodes5L]
+  | _ :: _, _ :: _, [], _ => by simp [mkNodes5L]
+  | [(p, ls)], [b], [bk], h => by simp [mkNodes5L, h b rfl]
+  | [(p, ls)], b :: b2 :: blks, bk :: bs, _ => by simp [mkNodes5L]
+  | [(p, ls)], [b], bk :: k2 :: bs, _ => by simp [mkNodes5L]
+  | (p, ls) :: x :: cl, b :: blks, bk :: bs, h => by
+    cases blks with
+    | nil => simp [mkNodes5L]
+    | cons b2 blks' =>
+      cases bs with
+      | nil => simp [mkNodes5L]
+      | cons k2 bs' =>
+        rw [mkNodes5L_cons, mkNodes5L_cons,
+          mkNodes5L_congr NL NL' (x :: cl) (b2 :: blks') (k2 :: bs') (fun b' hb' => h b' (by
+            rw [List.getLast?_cons_cons]; exact hb'))]
 
 theorem docTrees_blocks5 {src : Bytes} (env : GM.Inl.Env) (henv : env.escapedSpace = false) :
     ∀ (items : List (Nat × Raw5)) (q : Nat) (bs : List Bool), bs.length = items.length →
@@ -179,7 +293,7 @@ theorem docTrees_blocks5 {src : Bytes} (env : GM.Inl.Env) (henv : env.escapedSpa
 
 /-- the model of `goldmark.Convert` on the source of a stage-5 document of good blocks -/
 theorem convert_raw5 (uc : List (Nat × (Bool × Bool))) (items : List (Nat × Raw5)) (trail : Nat)
-    (hgood : ∀ it ∈ items, Good5' it.2) :
+    (hgood : ∀ it ∈ items, Good5' it.2) (hnoic : ∀ it ∈ items, isIcB it.2 = false) :
     GM.Convert.convertCore uc cmOpts (rawDoc (items.map conv5) trail) = .ok (hdocHtml (items.map (·.2))) := by
   have hno : ∀ it ∈ items.map conv5, ∀ l ∈ it.2, ∀ c ∈ l, c ≠ 10 := by
     intro x hx
@@ -189,7 +303,7 @@ theorem convert_raw5 (uc : List (Nat × (Bool × Bool))) (items : List (Nat × R
     intro x hx
     obtain ⟨it, hit, rfl⟩ := List.mem_map.mp hx
     exact lines5_ne it.2 (good5_of it.2 (hgood it hit))
-  obtain ⟨s', bs, h1, h2, h3, h4⟩ := runT_doc5 items trail (fun it hit => good5_of it.2 (hgood it hit)) hno
+  obtain ⟨s', bs, h1, h2, h3, h4⟩ := runT_doc5 items trail (fun it hit => good5_of it.2 (hgood it hit)) hnoic hno
   have hd := docAt_raw (items.map conv5) trail [] hno
   simp only [List.nil_append, List.length_nil] at hd
   have hcl : ∀ x ∈ closedOf 0 (items.map conv5), ParaAt (rawDoc (items.map conv5) trail) x.1 x.2 ∧
@@ -236,6 +350,9 @@ theorem convert_raw5 (uc : List (Nat × (Bool × Bool))) (items : List (Nat × R
 open GM.Spec.CM GM.Spec.CMFrag
 
 def convH (it : HItem) : Nat × Raw5 := (it.gap, rawOfH it.block)
+
+theorem isIcB_rawOfH (b : HBlock) : isIcB (rawOfH b) = false := by
+  cases b <;> rfl
 
 theorem paraBytes_rawOfH (b : HBlock) : paraBytes (lines5 (rawOfH b)) = spellHBlock b := by
   cases b with
@@ -302,7 +419,11 @@ theorem fragment5_conforms (d : HDoc) (h : HFrag d) (uc : List (Nat × (Bool × 
     intro x hx
     obtain ⟨it, hit, rfl⟩ := List.mem_map.mp hx
     exact good5_rawOfH it.block (hfrag_item h hit)
-  have hc := convert_raw5 uc (d.items.map convH) d.trail hgood
+  have hnoic : ∀ it ∈ d.items.map convH, isIcB it.2 = false := by
+    intro x hx
+    obtain ⟨it, hit, rfl⟩ := List.mem_map.mp hx
+    exact isIcB_rawOfH it.block
+  have hc := convert_raw5 uc (d.items.map convH) d.trail hgood hnoic
   rw [spellH_raw, hc]
   have he : expectedH d = hdocHtml ((d.items.map (·.block)).map rawOfH) := by
     rw [hdocHtml_spelled _ (by
